@@ -7,7 +7,7 @@ a by-reference out parameter).  Handles themselves are only ever assigned from a
 Payload classes must be value-only so that their copies are deep."""
 from facts import AnalysisBroken, CALL_KINDS
 from result import Result
-from paths import root_of
+from paths import local_init, root_of
 import p_c18 as _c18  # field_writes / contains_new
 import effects as FX
 
@@ -101,6 +101,41 @@ def is_fresh_temp(f, i, cls):
         if len(n['args']) == 1 and (n['callee'].get('copy') or n['callee'].get('move')):
             return is_fresh_temp(f, n['args'][0], cls)
     return False
+
+
+def is_fresh_local(f, i, cls, consumer):
+    """expression is (std::move of) a local object of cls that was default-constructed in this function
+    and is only touched through cls's own methods (which replace handles by fresh allocations - judged by
+    the fresh-handle / no-write-through rules) before it is handed to `consumer`: nobody else holds its payload"""
+    n = f.nodes[f.strip(i, 'all')]
+    if n['k'] == 'CallExpr' and n.get('callee', {}).get('qname') == 'std::move' and n.get('args'):
+        n = f.nodes[f.strip(n['args'][0], 'all')]
+    if n['k'] != 'DeclRefExpr' or n['decl'].get('dk') != 'local' or n['decl'].get('isref') or n['decl'].get('type', '').replace('const ', '') != cls:
+        return False
+    did = n['decl']['id']
+    init = local_init(f, did)
+    if init is not None and not is_fresh_temp(f, init, cls):
+        c0 = f.nodes[f.strip(init, 'noop')]
+        if not (c0['k'] == 'CXXConstructExpr' and c0['callee'].get('class') == cls and not c0.get('args')):
+            return False
+    for x in f.nodes:
+        if x['k'] != 'DeclRefExpr' or x['decl'].get('id') != did or x['decl'].get('dk') != 'local':
+            continue
+        if x['id'] in f.descendants(consumer):
+            continue
+        ok = False
+        for p_ in f.ancestors(x['id']):
+            pn = f.nodes[p_]
+            if pn['k'] in ('ImplicitCastExpr', 'ParenExpr', 'MemberExpr'):
+                continue
+            if pn['k'] == 'CXXMemberCallExpr' and pn['callee'].get('classq') == cls and f.strip(pn.get('obj', -1), 'all') == x['id']:
+                ok = True
+            elif pn['k'] == 'CallExpr' and pn.get('callee', {}).get('qname') == 'std::move':
+                ok = True      # handed over whole on another (exclusive) path: judged at that consumer
+            break
+        if not ok:
+            return False
+    return True
 
 
 def ownership_rules(prog, res, rule_prefix='own'):
@@ -209,6 +244,10 @@ def ownership_rules(prog, res, rule_prefix='own'):
                 # sources that are fresh default temporaries cannot alias anything
                 if srcs and all(is_fresh_temp(f, s, q) for s in srcs):
                     res.ok(R('no-alias-copy'), what, f.loc(n['id']), 'source is a freshly default-constructed temporary', function=f.sig, expr='%s@%d' % (what, n['id']))
+                    continue
+                if srcs and all(is_fresh_local(f, s, q, n['id']) for s in srcs):
+                    res.ok(R('no-alias-copy'), what, f.loc(n['id']), 'source is a local %s built in this function from fresh allocations only and handed over whole' % q.split('::')[-1],
+                           function=f.sig, expr='%s@%d' % (what, n['id']))
                     continue
                 if target[0] == 'assign':
                     kind, path = root_of(f, target[1]) if target[1] is not None else ('unknown', [])
